@@ -208,10 +208,15 @@ fn print_model_value(t: &mut Tape, v: &SVal) -> (String, bool) {
         }
     };
     // whitespace / comments
-    match t.below(4) {
+    match t.below(7) {
         1 => s = s.replace(' ', "\n  "),
         2 => s = s.replace(") ", ") ; comment\n "),
         3 => s = format!("  {}  ", s.replace(" (", "   (")),
+        // comment shapes at the edges of the lexer's states: empty, one character, CR LF line ends,
+        // a comment that ends with the input
+        4 => s = s.replace(") ", ") ;\n "),
+        5 => s = s.replace(' ', " ;x\r\n "),
+        6 => s = format!("{} ; trailing comment without a line end", s.replace(") ", ");\r ")),
         _ => {}
     }
     (s, nontrivial)
